@@ -7,7 +7,8 @@ package main
 //   using_eq_on_merged              USING (k) = the ON a.k = b.k join with the two k columns merged once, first, coalesced
 //   lateral_empty_left_header       e CROSS JOIN LATERAL (…) keeps its header when e is empty   (pre-finding F15)
 //   lateral_eq_inner / lateral_left_eq_left       LATERAL = per-left-row application
-//   recursive_eq_iterated           recursive CTE (UNION ALL) = generations computed by separate non-recursive queries
+//   recursive_eq_iterated           recursive CTE (UNION ALL / UNION) = generations computed by separate non-recursive queries
+//                                   (for UNION the accumulated rows are merged by the implementation's own non-recursive UNION)
 //   cte_reference_stable            `SELECT * FROM cte` as the LAST reference of a query whose earlier references filter /
 //                                   project the CTE inside derived tables = the CTE's own query evaluated alone
 //   table_reference_stable          the same for a temporary table referenced several times
@@ -497,32 +498,101 @@ func declareRaw(pr *hc.Proc, name string, cols []string, rows [][]value.Primary)
 
 func recursiveCase(g *hc.Gen, pr *hc.Proc, o *hc.Out, x *qgen) {
 	m := 3 + g.Intn(6)
-	ne := g.Intn(13)
 	epoch++
 	te := &table{name: fmt.Sprintf("te%d", epoch), cols: []string{"src", "dst", "v"}}
-	pay := pool(g, 4, true)
-	for i := 0; i < ne; i++ {
-		s := g.Intn(m)
-		var d value.Primary = value.NewInteger(int64(s + 1 + g.Intn(2)))
-		if g.Intn(8) == 0 {
-			d = value.NewNull()
+	pay := pool(g, 3, true)
+	distinct := g.Intn(2) == 0 // UNION instead of UNION ALL
+	if distinct {
+		pay = pay[:1+g.Intn(2)] // few payloads: the de-duplication has something to merge
+	}
+	edge := func(s, d int) {
+		var dv value.Primary = value.NewInteger(int64(d))
+		if d < 0 {
+			dv = value.NewNull()
 		}
 		var sv value.Primary = value.NewInteger(int64(s))
 		if g.Intn(10) == 0 {
 			sv = value.NewString(" " + strconv.Itoa(s) + " ")
 		}
-		te.rows = append(te.rows, []value.Primary{sv, d, pay[g.Intn(len(pay))]})
+		te.rows = append(te.rows, []value.Primary{sv, dv, pay[g.Intn(len(pay))]})
+	}
+	graph := []string{"dag", "dag", "chain", "diamond", "cycle", "selfloop"}[g.Intn(6)]
+	cyclic := false
+	switch graph {
+	case "dag":
+		for i, ne := 0, g.Intn(13); i < ne; i++ {
+			s := g.Intn(m)
+			d := s + 1 + g.Intn(2)
+			if g.Intn(8) == 0 {
+				d = -1
+			}
+			edge(s, d)
+		}
+	case "chain": // depth m, plus a few shortcuts
+		for i := 0; i+1 < m; i++ {
+			edge(i, i+1)
+		}
+		for i, k := 0, g.Intn(3); i < k; i++ {
+			s := g.Intn(m - 1)
+			edge(s, s+1+g.Intn(m-1-s))
+		}
+	case "diamond": // 0 -> 1,2 -> 3 -> 4 -> 5,6 -> 7: the same node reached along several paths, depth >= 3
+		for _, e := range [][2]int{{0, 1}, {0, 2}, {1, 3}, {2, 3}, {3, 4}, {4, 5}, {4, 6}, {5, 7}, {6, 7}} {
+			if e[1] <= m {
+				edge(e[0], e[1])
+			}
+		}
+		if g.Intn(2) == 0 {
+			edge(1, 3) // a parallel edge
+		}
+	case "cycle":
+		cyclic = true
+		k := 2 + g.Intn(3)
+		for i := 0; i < k; i++ {
+			edge(i, (i+1)%k)
+		}
+		if g.Intn(2) == 0 {
+			edge(g.Intn(k), k) // a tail leaving the cycle
+			edge(k, k+1)
+		}
+	case "selfloop":
+		cyclic = true
+		edge(0, 1)
+		edge(1, 1)
+		if g.Intn(2) == 0 {
+			edge(1, 2)
+		}
 	}
 	ts := &table{name: fmt.Sprintf("ts%d", epoch), cols: []string{"k", "v"}}
-	for i, k := 0, g.Intn(4); i < k; i++ {
-		var kv value.Primary = value.NewInteger(int64(g.Intn(m)))
-		switch g.Intn(8) {
-		case 0:
-			kv = value.NewString(strconv.Itoa(g.Intn(m)))
-		case 1:
-			kv = value.NewNull()
+	anchorMode := []string{"random", "random", "duplicates", "duplicates", "empty", "shared_successors"}[g.Intn(6)]
+	switch anchorMode {
+	case "random":
+		for i, k := 0, g.Intn(4); i < k; i++ {
+			var kv value.Primary = value.NewInteger(int64(g.Intn(m)))
+			switch g.Intn(8) {
+			case 0:
+				kv = value.NewString(strconv.Itoa(g.Intn(m)))
+			case 1:
+				kv = value.NewNull()
+			}
+			ts.rows = append(ts.rows, []value.Primary{kv, pay[g.Intn(len(pay))]})
 		}
-		ts.rows = append(ts.rows, []value.Primary{kv, pay[g.Intn(len(pay))]})
+	case "duplicates": // the same anchor row several times (also spelled differently: 0 and '0' share a key)
+		k0, p0 := g.Intn(2), pay[g.Intn(len(pay))]
+		for i, k := 0, 2+g.Intn(2); i < k; i++ {
+			var kv value.Primary = value.NewInteger(int64(k0))
+			if g.Intn(5) == 0 {
+				kv = value.NewString(strconv.Itoa(k0))
+			}
+			ts.rows = append(ts.rows, []value.Primary{kv, p0})
+		}
+		if g.Intn(3) == 0 {
+			ts.rows = append(ts.rows, []value.Primary{value.NewInteger(int64(g.Intn(m))), pay[g.Intn(len(pay))]})
+		}
+	case "shared_successors": // several anchor rows whose successors coincide
+		for i, k := 0, 2+g.Intn(3); i < k; i++ {
+			ts.rows = append(ts.rows, []value.Primary{value.NewInteger(int64(g.Intn(3))), pay[g.Intn(len(pay))]})
+		}
 	}
 	if err := pr.DeclareTable(te.name, te.cols, te.rows); err != nil {
 		o.Law("declare_table_error", err.Error())
@@ -583,6 +653,15 @@ func recursiveCase(g *hc.Gen, pr *hc.Proc, o *hc.Out, x *qgen) {
 	if g.Intn(4) == 0 {
 		limit = g.Intn(5)
 	}
+	if cyclic {
+		// the working table never becomes empty on a cycle (also with UNION: it is not reduced by the rows
+		// already known) - only the recursion limit ends it; out-degree <= 2 keeps the generations small
+		limit = 2 + g.Intn(5)
+	}
+	setop, opcmd := "UNION ALL", "c03.rec"
+	if distinct {
+		setop, opcmd = "UNION", "c03.recu"
+	}
 	pr.P.Tx.Flags.SetLimitRecursion(int64(limit))
 	defer pr.P.Tx.Flags.SetLimitRecursion(1000)
 	cpu := []int{1, 2, 4}[g.Intn(3)]
@@ -590,12 +669,12 @@ func recursiveCase(g *hc.Gen, pr *hc.Proc, o *hc.Out, x *qgen) {
 
 	gs.gname = "r"
 	stepSQL := sqlQuery(step)
-	sql := "WITH RECURSIVE r (c0, c1) AS (" + sqlQuery(anchor) + " UNION ALL " + stepSQL + ") SELECT * FROM r"
+	sql := "WITH RECURSIVE r (c0, c1) AS (" + sqlQuery(anchor) + " " + setop + " " + stepSQL + ") SELECT * FROM r"
 	v, err := pr.Query(sql)
 	e := newEnc()
 	ap := strings.Join(e.query(anchor), " ")
 	sp := strings.Join(e.query(step), " ")
-	op := fmt.Sprintf("c03.rec %d %d %s %s %s #%s", cpu, limit, e.header(), ap, sp, hc.Hex(sql))
+	op := fmt.Sprintf("%s %d %d %s %s %s #%s", opcmd, cpu, limit, e.header(), ap, sp, hc.Hex(sql))
 	impl := ""
 	if err != nil {
 		if _, ok := err.(*query.RecursionExceededLimitError); !ok {
@@ -609,6 +688,9 @@ func recursiveCase(g *hc.Gen, pr *hc.Proc, o *hc.Out, x *qgen) {
 	}
 	o.Case(op, impl)
 	o.Count("recursive:cases")
+	o.Count("recursive:setop=" + setop)
+	o.Count("recursive:graph=" + graph)
+	o.Count("recursive:anchor=" + anchorMode)
 
 	if err == nil && v.RecordLen() <= 40 {
 		nrows := v.RecordLen()
@@ -617,7 +699,7 @@ func recursiveCase(g *hc.Gen, pr *hc.Proc, o *hc.Out, x *qgen) {
 			s.layout = []col{{s.alias, "c0", false}, {s.alias, "c1", false}}
 			return s
 		}
-		with := "WITH RECURSIVE r (c0, c1) AS (" + sqlQuery(anchor) + " UNION ALL " + stepSQL + ") "
+		with := "WITH RECURSIVE r (c0, c1) AS (" + sqlQuery(anchor) + " " + setop + " " + stepSQL + ") "
 		x.ctes, x.outer = nil, nil
 		fq := x.multiRef(mk, nrows)
 		sql2 := with + sqlQuery(fq)
@@ -628,7 +710,7 @@ func recursiveCase(g *hc.Gen, pr *hc.Proc, o *hc.Out, x *qgen) {
 			ap2 := strings.Join(e2.query(anchor), " ")
 			sp2 := strings.Join(e2.query(step), " ")
 			fp2 := strings.Join(e2.query(fq), " ")
-			o.Case(fmt.Sprintf("c03.rec %d %d %s %s %s %s #%s", cpu, limit, e2.header(), ap2, sp2, fp2, hc.Hex(sql2)), canon(v2))
+			o.Case(fmt.Sprintf("%s %d %d %s %s %s %s #%s", opcmd, cpu, limit, e2.header(), ap2, sp2, fp2, hc.Hex(sql2)), canon(v2))
 			o.Count("recursive:" + fq.tag)
 			o.NonTrivial("rec:" + queryShape(fq, nil, 0) + "|" + band(v2.RecordLen()))
 		}
@@ -653,6 +735,7 @@ func recursiveCase(g *hc.Gen, pr *hc.Proc, o *hc.Out, x *qgen) {
 	}
 	all := viewRows(av)
 	gen := primRows(av)
+	accPrim := primRows(av)
 	iterSQL := ""
 	gens := 0
 	exceeded := false
@@ -679,21 +762,43 @@ func recursiveCase(g *hc.Gen, pr *hc.Proc, o *hc.Out, x *qgen) {
 		if nv.RecordLen() == 0 {
 			break
 		}
-		all = append(all, viewRows(nv)...)
+		if distinct {
+			// accumulated := accumulated UNION step result, computed by the implementation's own (non-recursive) UNION
+			epoch++
+			ga, gn := fmt.Sprintf("ga%d", epoch), fmt.Sprintf("gn%d", epoch)
+			e1 := declareRaw(pr, ga, []string{"c0", "c1"}, accPrim)
+			e2 := declareRaw(pr, gn, []string{"c0", "c1"}, primRows(nv))
+			var uv *query.View
+			var e3 error
+			if e1 == nil && e2 == nil {
+				uv, e3 = pr.Query("SELECT * FROM " + ga + " UNION SELECT * FROM " + gn)
+				o.Eval()
+			}
+			pr.DisposeTable(ga)
+			pr.DisposeTable(gn)
+			if e1 != nil || e2 != nil || e3 != nil {
+				o.Law("recursive_sql_error", map[string]interface{}{"sql": "accumulated UNION step", "error": fmt.Sprint(e1, e2, e3)})
+				return
+			}
+			all = viewRows(uv)
+			accPrim = primRows(uv)
+		} else {
+			all = append(all, viewRows(nv)...)
+		}
 		gen = primRows(nv)
 		if gens > 200 {
 			break
 		}
 	}
 	o.Count("law_checks:recursive")
-	o.NonTrivial(fmt.Sprintf("rec:%d:%s:%v:%c%c", gens, band(len(all)), exceeded, j.jk, j.jform))
+	o.NonTrivial(fmt.Sprintf("rec:%d:%s:%v:%c%c:%s:%s:%s", gens, band(len(all)), exceeded, j.jk, j.jform, setop, graph, anchorMode))
 	want := "ERR"
 	if !exceeded {
 		want = "2 " + canonRows(all)
 	}
 	if impl != want {
 		o.Law("recursive_eq_iterated", map[string]interface{}{"sql": sql, "step_sql_over_generation_table_gt": iterSQL,
-			"limit_recursion": limit, "generations": gens, "tables": dumpTables(x.tables)})
+			"limit_recursion": limit, "generations": gens, "set_operator": setop, "tables": dumpTables(x.tables)})
 	}
 }
 
